@@ -1142,6 +1142,12 @@ def store_order_constraints(repo):
                 node.comparators[0].id == "self":
             other = const_str(node.left)
             kind = "read"
+        elif isinstance(node, ast.Call) and isinstance(
+                node.func, ast.Attribute) and node.func.attr == "get" and \
+                isinstance(node.func.value, ast.Name) and \
+                node.func.value.id == "self" and node.args:
+            other = const_str(node.args[0])
+            kind = "read"
         if other is None:
             continue
         ks = [a.text.split("==")[1].strip().strip("'\"")
